@@ -79,6 +79,7 @@ SIM_CHECKS = {
         'batch': {'quick': 5000, 'thorough': 100000},
         'cells': 'c08',
         'bitmap': True,
+        'c08_sweep': True,
         'needs_history_rule': True,
         'py_stage': {'runs': {'quick': 12000, 'thorough': 600000}},
         'extra_coverage': lambda total: {
@@ -240,6 +241,51 @@ def c13_sweep(binary):
              'family_2': 'set, poll after r = 0..999 ms (carried remainder), one gap 1..64536, one reading; 256 start phases '
                          'across the 2^32 wrap (%d)' % carried,
              'exhaustive': viol is None and pairs == one_gap + carried, 'wall_s': round(time.time() - t0, 1)}, viol)
+
+
+def c08_sweep(binary, jobs=64):
+    """Supplement for C08 (the property's "exhaustive over all ordered pairs of cached-year states per zone"): every
+    shipped zone of both databases, one processor, every ordered pair of cached-year states (family 1) and every
+    ordered pair of mid-year states of two zones bound alternately to one processor (family 2), each answer compared
+    with a fresh processor's. Plain enumeration of a bounded history family, reported apart from the seeded search."""
+    import subprocess
+    import re as _re
+    from concurrent.futures import ThreadPoolExecutor
+    t0 = time.time()
+
+    def job(j):
+        p = subprocess.run([binary, 'sweep08', str(j), str(jobs), '1'], stdout=subprocess.PIPE, stderr=subprocess.PIPE,
+                           text=True, timeout=3600)
+        if p.returncode != 0:
+            return 'SWEEP08CRASH job=%d rc=%d %s' % (j, p.returncode, p.stderr[-2000:].replace('\n', ' | '))
+        return p.stdout
+
+    zones = pairs = checks = 0
+    viol = None
+    with ThreadPoolExecutor(max_workers=int(os.environ.get('VERIF_WORKERS', '0') or 0) or min(16, os.cpu_count() or 4)) as ex:
+        for out in ex.map(job, range(jobs)):
+            if out.startswith('SWEEP08CRASH'):
+                raise K.HarnessError('sweep08 died outside a trace: ' + out[:2500])
+            m = _re.search(r'SWEEP08 zones=(\d+) pairs=(\d+) checks=(\d+)', out)
+            if not m:
+                raise K.HarnessError('sweep08 produced no summary line')
+            zones += int(m.group(1)); pairs += int(m.group(2)); checks += int(m.group(3))
+            mv = _re.search(r'SWEEP08VIOL (.*)', out)
+            if mv and viol is None:
+                trace = mv.group(1).replace('\\n', '\n')
+                o = K.run_trace(binary, trace, timeout=60)
+                if not o.failed:
+                    raise K.HarnessError('sweep08 disagreement does not reproduce as a trace:\n' + trace[:600])
+                mn, tests = K.minimise(binary, trace, o.vclass, timeout=HANG_S)
+                o2 = K.run_trace(binary, mn, timeout=HANG_S)
+                viol = {'trace': trace, 'min_trace': mn, 'tests': tests, 'vclass': o.vclass, 'msg': o2.msg or o.msg}
+    return ({'zones': zones, 'ordered_pairs_checked': pairs, 'answers_compared': checks,
+             'family_1': 'per zone: one processor, every ordered pair (a, b) of 223 states (1 Jan 00:00, day 90, 2 Jul 12:00, '
+                         'day 304 of each year 1998..2052; far below; far above; the error sentinel): one question about a, '
+                         'then utc / delta / abbrev / zdc about b',
+             'family_2': 'per zone and its registry successor, bound alternately to ONE processor: every ordered pair of 58 '
+                         'mid-year states, one question each',
+             'exhaustive': viol is None, 'wall_s': round(time.time() - t0, 1)}, viol)
 
 
 # One trace executes in milliseconds (tens of ms under sanitizers); anything that needs longer than this
@@ -470,6 +516,22 @@ def run_sim_check(prop, tier, verif_seed, spec=None, runs_override=None):
             K.log('[%s] sweep: %s' % (prop, sv['msg']))
             violations += 1
             exit_code = 1
+    sweep08 = None
+    if spec.get('c08_sweep') and exit_code == 0 and not runs_override:
+        sweep08 = []
+        for variant in (('plain', 'san') if tier == 'thorough' else ('plain',)):
+            info, sv = c08_sweep(B.build(variant))
+            info['build_variant'] = variant
+            sweep08.append(info)
+            if sv:
+                v = {'run': -1, 'seed': 0, 'vclass': sv['vclass'], 'msg': sv['msg'], 'op': -1}
+                path = K.write_replay(prop, 'tz-history', tier, verif_seed, v, sv['trace'], sv['min_trace'], variant, sv['tests'],
+                                      {'found_by': 'exhaustive ordered-pair sweep of cached-year states'})
+                print('VIOLATION property=%s replay=%s' % (prop, path))
+                K.log('[%s] pair sweep: %s %s' % (prop, sv['vclass'], sv['msg']))
+                violations += 1
+                exit_code = 1
+                break
     enum14 = None
     if spec.get('c14_enum') and tier == 'thorough' and exit_code == 0 and not runs_override:
         enum14 = []
@@ -558,6 +620,8 @@ def run_sim_check(prop, tier, verif_seed, spec=None, runs_override=None):
         cov['exhaustive_phase_gap_sweep'] = sweep
     if enum14:
         cov['bounded_exhaustive_enumeration'] = enum14
+    if sweep08:
+        cov['exhaustive_cached_year_pair_sweep'] = sweep08
     doc = {
         'property_id': prop, 'tier': tier, 'seed': verif_seed, 'level': 'exploration',
         'coverage': cov, 'assumptions': spec['assumptions'], 'wall_s': round(wall, 2),
